@@ -56,6 +56,15 @@ class Pipeline:
         Returns:
             Pipeline: The class instance.
         """
-        if cls._instance is None:
-            cls._instance = super(Pipeline, cls).__new__(cls)
-        return cls._instance
+        if cls is Pipeline:
+            # Used as decorator: each decorated function gets its own object. A shared instance
+            # would make all decorated functions the same object that calls the function that was
+            # decorated last.
+            return super(Pipeline, cls).__new__(cls)
+        # The singleton is kept per class, an instance of a base class isn't the instance of its
+        # subclasses.
+        instance: Pipeline | None = cls.__dict__.get("_instance")
+        if instance is None:
+            instance = super(Pipeline, cls).__new__(cls)
+            cls._instance = instance
+        return instance
